@@ -103,6 +103,70 @@ def _mc(cfg, coverage=True, timeout=1700, extra=None):
     return vlib.tlc("CompatStream", cfg, workers=2, timeout=timeout, coverage=coverage, jvm=JVM, extra=extra)
 
 
+def _gen_tlc(cfg, outpath, simulate=None, depth=None, seed_=None, timeout=1700):
+    """Run Gen_CompatStream and stream its REPLAY lines straight into `outpath` (one JSON object per line).
+    Same command line as vlib.tlc; the only difference is that the printed behaviours are not parsed in
+    python (tens of MB per run) - the harness parses them and reports the statistics."""
+    import re
+    import subprocess
+    import tempfile
+    import time
+    meta = tempfile.mkdtemp(prefix="tlcmeta_")
+    cmd = ["timeout", str(timeout), "java", "-XX:+UseParallelGC", "-Xss64m", "-Xmx6g"] + JVM + [
+        "-cp", vlib._classpath(), "tlc2.TLC", "-metadir", meta, "-cleanup", "-noGenerateSpecTE", "-config", cfg,
+        "-deadlock"]
+    if simulate is not None:
+        cmd += ["-simulate", "num=%d" % simulate, "-depth", str(depth), "-seed",
+                str(seed_ if seed_ is not None else vlib.seed()), "-workers", "1"]
+    else:
+        cmd += ["-workers", "2"]
+    cmd += ["Gen_CompatStream.tla"]
+    r = vlib.TlcResult()
+    t0 = time.time()
+    keep = []
+    n = 0
+    mk = '<<"REPLAY", "'
+    try:
+        with open(outpath, "w") as out:
+            p = subprocess.Popen(cmd, cwd=vlib.SPEC, stdout=subprocess.PIPE, stderr=subprocess.STDOUT, text=True,
+                                 errors="replace", bufsize=1 << 20)
+            for line in p.stdout:
+                if line.startswith(mk):
+                    body = line.rstrip()
+                    if not body.endswith('">>'):
+                        raise vlib.ToolError("unexpected REPLAY line: %s" % body[:200])
+                    out.write(body[len(mk):-3].replace('\\"', '"').replace("\\\\", "\\"))
+                    out.write("\n")
+                    n += 1
+                elif len(keep) < 20000:
+                    keep.append(line)
+            p.wait()
+        r.rc = p.returncode
+    finally:
+        shutil.rmtree(meta, ignore_errors=True)
+    r.wall = time.time() - t0
+    r.out = "".join(keep)
+    for line in keep:
+        m = vlib._RE_STATES.search(line)
+        if m:
+            r.generated, r.distinct = int(m.group(1)), int(m.group(2))
+        m = vlib._RE_DEPTH.search(line)
+        if m:
+            r.depth = int(m.group(1))
+        m = vlib._RE_INV.search(line)
+        if m and r.violated is None:
+            r.violated = m.group(1)
+    if r.rc == 124:
+        r.error = "timeout after %ss" % timeout
+    elif r.violated is None and "Error:" in r.out and "No error has been found" not in r.out:
+        m = re.search(r"Error: (.*)", r.out)
+        r.error = m.group(1) if m else "unknown TLC error"
+    elif r.violated is None and r.rc != 0:
+        r.error = "tlc exit code %s" % r.rc
+    r.printed_n = n
+    return r
+
+
 class Gen:
     """one generation run of Gen_CompatStream written to a scratch jsonl"""
 
@@ -110,36 +174,24 @@ class Gen:
         self.name, self.cfg, self.simulate, self.depth, self.seed = name, cfg, simulate, depth, seed_
         self.path = os.path.join(tmp, name + ".jsonl")
         self.n = 0
-        self.acts = {}
-        self.kinds = {}
-        self.maxlen = 0
-        self.samples = []
 
     def go(self):
-        with open(self.path, "w") as f:
-            def sink(o):
-                self.n += 1
-                last = o["steps"][-1]
-                key = o["mode"] + ":" + last["a"]
-                self.acts[key] = self.acts.get(key, 0) + 1
-                k = last["x"]["k"]
-                self.kinds[k] = self.kinds.get(k, 0) + 1
-                if len(o["steps"]) > self.maxlen:
-                    self.maxlen = len(o["steps"])
-                    if len(self.samples) < 12:
-                        self.samples.append(o)
-                f.write(json.dumps(o, separators=(",", ":")) + "\n")
-            self.r = vlib.tlc("Gen_CompatStream", self.cfg, workers=2, timeout=1700, coverage=False, sink=sink,
-                              simulate=self.simulate, depth=self.depth, seed_=self.seed, jvm=JVM)
+        self.r = _gen_tlc(self.cfg, self.path, self.simulate, self.depth, self.seed)
+        self.n = self.r.printed_n
         return self
 
 
+def _t(run, what):
+    import time
+    vlib.log("  [%5.1fs] %s" % (time.time() - run.t0, what))
+
+
 def run(run, tier, replay):
-    vlib.sany("CompatStream")
-    vlib.sany("Gen_CompatStream")
     tmp = vlib.scratch()
     try:
         if replay:
+            vlib.sany("CompatStream")
+            vlib.sany("Gen_CompatStream")
             obj = json.load(open(replay))
             p = os.path.join(tmp, "one.jsonl")
             with open(p, "w") as f:
@@ -154,16 +206,24 @@ def run(run, tier, replay):
         q = tier == "quick"
         suf = "" if q else "_thorough"
         pool = concurrent.futures.ThreadPoolExecutor(max_workers=3)
+        # cargo may have to wait for the lock on the shared target directory: start it right away, on its own thread
+        bpool = concurrent.futures.ThreadPoolExecutor(max_workers=1)
+        build = bpool.submit(vlib.cargo_build, PKG, [BIN])
         # ---- 1. model checking and 2. generation, in parallel (3 JVMs with 2 workers each)
         # quick: one exhaustive run per half = invariants + liveness on the fair spec;
         # thorough: invariants on larger constants and liveness on medium ones
+        sany = [pool.submit(vlib.sany, m) for m in ("CompatStream", "Gen_CompatStream")]
+        for f in sany:
+            f.result()          # a module that does not parse fails here (exit 2) before anything else runs
         jobs = [("r", "MC_CompatStream_r%s.cfg" % suf), ("w", "MC_CompatStream_w%s.cfg" % suf)]
         if not q:
             jobs += [("live_r", "MC_CompatStream_live_r_thorough.cfg"), ("live_w", "MC_CompatStream_live_w_thorough.cfg")]
-        mc = {name: pool.submit(_mc, cfg) for name, cfg in jobs}
         gens = [Gen(tmp, "cover_r", "Gen_CompatStream_cover_r%s.cfg" % suf),
                 Gen(tmp, "cover_w", "Gen_CompatStream_cover_w%s.cfg" % suf)]
-        if not q:
+        if q:
+            gens += [Gen(tmp, "seq3_r", "Gen_CompatStream_seq3_r.cfg"),
+                     Gen(tmp, "seq3_w", "Gen_CompatStream_seq3_w.cfg")]
+        else:
             gens += [Gen(tmp, "seq_r", "Gen_CompatStream_seq_r.cfg"),
                      Gen(tmp, "seq_w", "Gen_CompatStream_seq_w.cfg"),
                      Gen(tmp, "seqa_r", "Gen_CompatStream_seqa_r.cfg"),
@@ -172,12 +232,15 @@ def run(run, tier, replay):
                      Gen(tmp, "sim_w", "Gen_CompatStream_sim_w.cfg", simulate=40000, depth=9),
                      Gen(tmp, "sim2_r", "Gen_CompatStream_sim_r.cfg", simulate=40000, depth=9, seed_=vlib.seed() + 7919),
                      Gen(tmp, "sim2_w", "Gen_CompatStream_sim_w.cfg", simulate=40000, depth=9, seed_=vlib.seed() + 7919)]
-        gfut = [pool.submit(g.go) for g in gens]
+        gfut = [pool.submit(g.go) for g in gens[:2]]
+        mc = {name: pool.submit(_mc, cfg) for name, cfg in jobs}
+        gfut += [pool.submit(g.go) for g in gens[2:]]
         ctl = pool.submit(_mc, "MC_CompatStream_controls.cfg", False, 600, ["-continue"])
-        build = pool.submit(vlib.cargo_build, PKG, [BIN])
 
+        _t(run, "sany done, TLC runs submitted")
         for name, cfg in jobs:
             r = mc[name].result()
+            _t(run, "model %s done (%d states, %.0fs)" % (cfg, r.distinct, r.wall))
             side = name[-1]
             live = q or name.startswith("live")
             label = "CompatStream/%s%s" % (cfg, " (FairSpec, PROPERTY Woken)" if live else "")
@@ -192,6 +255,7 @@ def run(run, tier, replay):
         # model-level controls (one run, -continue): the strict read limit must fail (= the recorded
         # deviation is real in the model) and a variant that wakes only one waker slot must violate Woken
         r = ctl.result()
+        _t(run, "controls done (%.0fs)" % r.wall)
         if "Invariant ReadLimitStrict is violated" not in r.out:
             raise vlib.ToolError("strict control: the model was expected to violate ReadLimitStrict, got %s %s\n%s"
                                  % (r.violated, r.error, r.out[-1500:]))
@@ -203,32 +267,36 @@ def run(run, tier, replay):
 
         # ---- 3. replay
         build.result()
+        _t(run, "harness built")
         total_drift = 0
         seen_steps = {"r": set(), "w": set()}
         seen_kinds = {"r": set(), "w": set()}
         for g, f in zip(gens, gfut):
             f.result()
+            _t(run, "generation %s done (%d behaviours, %.0fs)" % (g.name, g.n, g.r.wall))
             if g.r.error or g.r.violated:
                 raise vlib.ToolError("Gen_CompatStream/%s: %s %s\n%s" % (g.cfg, g.r.error, g.r.violated, g.r.out[-2500:]))
             if g.n == 0:
                 raise vlib.ToolError("Gen_CompatStream/%s printed no behaviours" % g.cfg)
             side = g.name[-1]
-            seen_steps[side] |= {k.split(":")[1] for k in g.acts}
-            seen_kinds[side] |= set(g.kinds)
             if g.name.startswith("cover"):
                 # the cover run explores the whole bounded model with all invariants on
                 run.add_model("Gen_CompatStream/%s (invariants + one path per state)" % g.cfg, g.r)
-            run.note(g.name + "_behaviours", g.n)
-            run.note(g.name + "_max_len", g.maxlen)
-            run.note(g.name + "_last_steps", g.acts)
-            for smp in g.samples[-1:]:
-                run.sample(smp, limit=6)
             s, d = replay_file(g.path)
             if s.get("partial"):
                 vlib.log("replay of %s stopped by the watchdog" % g.name)
             elif s["cases"] != g.n:
                 raise vlib.ToolError("%s: %d behaviours generated, %d replayed" % (g.name, g.n, s["cases"]))
+            else:
+                seen_steps[side] |= {k.split(":")[1] for k in s["last_steps"]}
+                seen_kinds[side] |= set(s["kinds"])
+                run.note(g.name + "_behaviours", g.n)
+                run.note(g.name + "_max_len", s["max_len"])
+                run.note(g.name + "_last_steps", s["last_steps"])
+                if g.name.startswith("cover"):
+                    run.sample(s["longest"], limit=4)
             total_drift += classify(run, s, d, g.name)
+            _t(run, "replay %s done" % g.name)
             run.add_traces(s["cases"])
             run.note(g.name + "_steps_replayed", s["steps"])
         for side in ("r", "w"):
@@ -257,6 +325,7 @@ def run(run, tier, replay):
                      p["sig"].get("clause") in ("fifo_out", "fifo_in", "loss"))
             if nc == 0:
                 raise vlib.ToolError("negative control: the contract oracle accepted a falsified observation")
+        _t(run, "negative controls done")
         run.note("drift_steps", total_drift)
         run.note("exhaustive", q)
         run.assumptions += [
@@ -266,5 +335,6 @@ def run(run, tier, replay):
             "share one slot by design of futures-io",
         ]
         pool.shutdown()
+        bpool.shutdown()
     finally:
         shutil.rmtree(tmp, ignore_errors=True)
